@@ -27,6 +27,8 @@ def _worker(args):
         mod.setup(tier)
     strat = mod.strategy(tier)
     core.drive(strat, mod.run_case, col, _shard_seed(seed, shard), examples)
+    if hasattr(mod, "worker_post"):
+        mod.worker_post(tier, col)
     if hasattr(mod, "shard_extra"):
         col.extra.update(mod.shard_extra())
     return col
@@ -82,6 +84,8 @@ def standard_run(mod, tier: str, seed: int, args=None) -> int:
         strat = mod.strategy(tier)
         if strat is not None:
             core.drive(strat, mod.run_case, col, seed, examples)
+    if hasattr(mod, "worker_post"):
+        mod.worker_post(tier, col)
     if par is not None:
         for c in par.get():
             col.merge(c)
